@@ -224,9 +224,10 @@ func (c *Ctx) CHA() *callgraph.Graph {
 // ---------------------------------------------------------------------------
 // Fixture expectations: a fixture function whose doc comment contains
 // "want:RULE" must receive at least one violated obligation of RULE positioned
-// inside it; "clean:RULE" must receive none (but at least one obligation).
+// inside it; "clean:RULE" must receive none (but at least one obligation);
+// "silent:RULE" must receive no obligation at all (outside the rule's scope).
 
-var markerRe = regexp.MustCompile(`\b(want|clean):([A-Za-z0-9_.\-]+)`)
+var markerRe = regexp.MustCompile(`\b(want|clean|silent):([A-Za-z0-9_.\-]+)`)
 
 func (c *Ctx) checkFixtures(info *propInfo) (map[string]int, []string) {
 	hits := map[string]int{}
@@ -265,6 +266,8 @@ func (c *Ctx) checkFixtures(info *propInfo) (map[string]int, []string) {
 						problems = append(problems, fmt.Sprintf("fixture %s: rule %s did not flag the construct it must flag", name, rule))
 					case kind == "clean" && nViol > 0:
 						problems = append(problems, fmt.Sprintf("fixture %s: rule %s flagged a construct that is correct", name, rule))
+					case kind == "silent" && nAny > 0:
+						problems = append(problems, fmt.Sprintf("fixture %s: rule %s produced an obligation for a construct outside its scope", name, rule))
 					case kind == "clean" && nAny == 0:
 						problems = append(problems, fmt.Sprintf("fixture %s: rule %s produced no obligation for a construct it must recognise", name, rule))
 					default:
